@@ -375,7 +375,7 @@ func SignEnveloped(doc *xt.Node, path []string, st xt.Style, kp *world.KeyPair, 
 	if o.KeyInfo {
 		sig.Add(mk("KeyInfo", mk("X509Data", mk("X509Certificate", xt.T(o.CertText)))))
 	}
-	return root.Bytes(xt.Style{Decl: st.Decl, Quote: st.Quote})
+	return root.Bytes(st.Lex())
 }
 
 func signGox(raw []byte, path []string, kp *world.KeyPair, o SignOpts, decl bool) []byte {
@@ -486,10 +486,45 @@ func childTokenIndex(el *etree.Element, n int) int {
 
 // ---- transports ---------------------------------------------------------------------------------
 
-func Deflate(b []byte) []byte {
+func Deflate(b []byte) []byte { return DeflateKind(b, "") }
+
+// DeflateKind: every output is a legal raw DEFLATE stream (RFC 1951) of b: "" best compression | "stored" (stored blocks only) |
+// "huffman" (Huffman coding only) | "fast" | "flushed" (the input written in three parts with a sync flush - an empty stored
+// block - after each) | "chunks" (several final-bit-less blocks: one byte written and flushed at a time for the first 16 bytes).
+func DeflateKind(b []byte, kind string) []byte {
 	var buf bytes.Buffer
-	w, _ := flate.NewWriter(&buf, flate.BestCompression)
-	w.Write(b)
+	level := flate.BestCompression
+	switch kind {
+	case "stored":
+		level = flate.NoCompression
+	case "huffman":
+		level = flate.HuffmanOnly
+	case "fast":
+		level = flate.BestSpeed
+	}
+	w, _ := flate.NewWriter(&buf, level)
+	switch kind {
+	case "flushed":
+		a, c := len(b)/3, 2*len(b)/3
+		w.Write(b[:a])
+		w.Flush()
+		w.Write(b[a:c])
+		w.Flush()
+		w.Write(b[c:])
+		w.Flush()
+	case "chunks":
+		n := 16
+		if n > len(b) {
+			n = len(b)
+		}
+		for i := 0; i < n; i++ {
+			w.Write(b[i : i+1])
+			w.Flush()
+		}
+		w.Write(b[n:])
+	default:
+		w.Write(b)
+	}
 	w.Close()
 	return buf.Bytes()
 }
@@ -535,6 +570,7 @@ type Redirect struct {
 	Pct        PctStyle
 	Encoding   string // SAMLEncoding parameter value; "" = absent
 	NoDeflate  bool
+	Flate      string // DeflateKind of the payload
 	Order      string // "std" | "sig-first" (parameter order on the wire)
 }
 
@@ -546,7 +582,7 @@ func (r Redirect) RawQuery() string {
 	}
 	payload := r.XML
 	if !r.NoDeflate {
-		payload = Deflate(payload)
+		payload = DeflateKind(payload, r.Flate)
 	}
 	msg := r.Param + "=" + Pct(base64.StdEncoding.EncodeToString(payload), r.Pct)
 	relay := ""
